@@ -307,7 +307,9 @@ class Squid:
         logtxt = self.cache_log()
         m = re.search(r"assertion failed: ([^\n]*)", logtxt)
         if m:
-            probs.append(("assert:" + re.sub(r":\d+:", ":", m.group(1))[:80].replace(" ", "_"), m.group(0)))
+            mm = re.match(r"([^:]+):\d+: *(.*)", m.group(1))
+            where = (os.path.basename(mm.group(1)) + ":" + mm.group(2)) if mm else m.group(1)
+            probs.append(("assert:" + where[:80].replace(" ", "_"), m.group(0)))
         m = re.search(r"FATAL: (?!Received Segment Violation)([^\n]*)", logtxt)
         # "kidN registration timed out" is Squid's own start-up watchdog firing on a CPU-starved machine: environment, not a verdict
         if m and "dying" not in m.group(1) and "registration timed out" not in m.group(1):
